@@ -590,8 +590,7 @@ class ActionTypeHint(Action):
                         if isinstance(orig_val, str) or (
                             isinstance(orig_val, NestedArg) and isinstance(orig_val.val, str)
                         ):
-                            with change_to_path_dir(config_path):
-                                val = adapt_typehints(orig_val, self._typehint, default=self.default, **kwargs)
+                            val = adapt_typehints(orig_val, self._typehint, default=self.default, **kwargs)
                             ex = None
                     except ValueError:
                         if self._enable_path and config_path is None and isinstance(orig_val, str):
